@@ -544,6 +544,18 @@ func genProgs(r *Rng) [][]op {
 			progs[t] = append(progs[t], o)
 		}
 	}
+	if shape == 2 {
+		// atomicity of a multi-key Removed: both keys present, one Removed(a, b), readers in between must never
+		// observe a half-applied removal (one key gone, the other still there)
+		progs[0] = []op{{kind: "updated", k: 0, v: r.Range(1, 9)}, {kind: "updated", k: 1, v: r.Range(1, 9)}, {kind: "removed", ks: []int{0, 1}}}
+		for t := 1; t < n; t++ {
+			progs[t] = nil
+			for i, m := 0, r.Range(1, 3); i < m; i++ {
+				progs[t] = append(progs[t], Pick(r, op{kind: "iter"}, op{kind: "size"}, op{kind: "iter"}, op{kind: "get", k: r.Intn(2)}))
+			}
+		}
+		return progs
+	}
 	if r.Intn(30) == 0 {
 		progs[0] = []op{} // an empty program
 	}
